@@ -86,7 +86,8 @@ func GetScanSlice(types []*sql.ColumnType) []interface{} {
 			scanVal := uint64(0)
 			scanSlice = append(scanSlice, &scanVal)
 		case ScanTypeRawBytes:
-			scanVal := ""
+			// text, decimal and binary columns may hold NULL
+			scanVal := sql.NullString{}
 			scanSlice = append(scanSlice, &scanVal)
 		case ScanTypeUnknown:
 			scanVal := new(interface{})
@@ -119,6 +120,12 @@ func DeepEqual(x, y interface{}) bool {
 	if okx && oky {
 		return flx == fly
 	}
+	// the same column content may arrive as string or as []byte
+	strx, okx := parseStringIfOk(typx)
+	stry, oky := parseStringIfOk(typy)
+	if okx && oky {
+		return strx == stry
+	}
 
 	return reflect.DeepEqual(typx.Interface(), typy.Interface())
 }
@@ -133,4 +140,16 @@ func parseFloatIfOk(val reflect.Value) (float64, bool) {
 		return float64(val.Float()), true
 	}
 	return 0, false
+}
+
+func parseStringIfOk(val reflect.Value) (string, bool) {
+	switch val.Kind() {
+	case reflect.String:
+		return val.String(), true
+	case reflect.Slice:
+		if val.Type().Elem().Kind() == reflect.Uint8 {
+			return string(val.Bytes()), true
+		}
+	}
+	return "", false
 }
